@@ -1204,6 +1204,9 @@ class Interp:
         if isinstance(o, dict) and name in ("pop", "get"):
             yield ("dict" + name, o), env, st
             return
+        if isinstance(o, dict) and name in ("items", "keys", "values"):
+            yield ("dictview", o, name), env, st
+            return
         if isinstance(o, tuple) and o and o[0] == "ext":
             yield Opaque("ext"), env, st
             return
@@ -1707,6 +1710,14 @@ class Interp:
                 yield None, env, st
             else:
                 yield Sym("it"), env, st
+            return
+        if isinstance(f, tuple) and f and f[0] == "dictview":
+            if args or kwargs:
+                raise Raise("TypeError: dict.%s() takes no arguments" % f[2])
+            d_ = f[1]
+            yield ([(k_, v_) for k_, v_ in d_.items()] if f[2] == "items"
+                   else list(d_) if f[2] == "keys"
+                   else list(d_.values())), env, st
             return
         if isinstance(f, tuple) and f and f[0] in ("dictpop", "dictget"):
             d = f[1]
